@@ -211,7 +211,7 @@ def oracle(ctx):
             ctx.count("oracle_refused_at_init")
             continue
         ts = gen_ts(ctx) + [ctx.rng.randrange(-7 * 86400 * 10 ** 6, 7 * 86400 * 10 ** 6) / 60e6]
-        nums = sgp4io.tle_nums(tle)
+        nums = printed_elements(l1, l2)      # the elements as PRINTED in the two lines (decoded here, not by pyorbital)
         lines.append("str3 " + " ".join(lib.f2h(x) for x in nums) + "".join(" " + lib.f2h(t) for t in ts))
         recs.append((l1, l2, o, ts))
     outs = drv.run_parallel(lines) if drv else [None] * len(lines)
@@ -220,11 +220,15 @@ def oracle(ctx):
         steps = out.split(" | ")[1:] if out else []
         for k, t in enumerate(ts):
             us = int(round(t * 60e6))
-            tt = o.tle.epoch + np.timedelta64(us, "us")
+            tkind = TIME_KINDS[(k + len(l1) + us) % len(TIME_KINDS)] if k else "dt64us"
+            tt = time_of(o, us, tkind)
             t_exact = us / 60e6
-            case = {"line1": l1, "line2": l2, "minutes": t_exact}
+            case = {"line1": l1, "line2": l2, "minutes": t_exact, "time_kind": tkind}
+            ctx.bump("time_kind", tkind)
             try:
-                pos, vel = o.get_position(tt, normalize=False)
+                with warnings.catch_warnings():
+                    warnings.simplefilter("ignore")      # numpy: datetime64 has no time zone (aware datetimes are converted to UTC)
+                    pos, vel = o.get_position(tt, normalize=False)
             except NotImplementedError:
                 ctx.count("oracle_notimpl")
                 continue
@@ -236,7 +240,9 @@ def oracle(ctx):
                 ctx.violation("nonfinite", case, [list(pos), list(vel)], "finite state", site="Orbital.get_position")
                 continue
             # normalised output
-            pn, vn = o.get_position(tt, normalize=True)
+            with warnings.catch_warnings():
+                warnings.simplefilter("ignore")
+                pn, vn = o.get_position(tt, normalize=True)
             if not (np.allclose(pn * 6378.135, pos, rtol=1e-13, atol=0) and np.allclose(vn * 106.30225, vel, rtol=1e-13, atol=0)):
                 ctx.violation("normalisation", case, [list(pn), list(vn)], "state/(6378.135, 106.30225)", site="Orbital.get_position")
             if out is None:
@@ -299,6 +305,31 @@ def oracle(ctx):
                 ctx.violation("aiaa_vector", {"line1": l1, "line2": l2, "minutes": mins},
                               {"impl": list(pos), "aiaa": p, "diff_km": dp}, "<= 5 mm", site="Orbital.get_position")
     ctx.note("worst |dr| vs AIAA vectors = %.3g km" % worst)
+
+
+def printed_elements(l1, l2):
+    """[e, i, raan, argp, M, n, B*] decoded from the standard columns, independently of pyorbital's parser."""
+    bs = l1[53:61]
+    mant = int(bs[1:6])
+    bstar = (-1.0 if bs[0] == "-" else 1.0) * float("0.%05d" % mant) * 10.0 ** int(bs[6:8].replace(" ", "") or 0)
+    return [float("0." + l2[26:33].replace(" ", "0")), float(l2[8:16]), float(l2[17:25]), float(l2[34:42]), float(l2[43:51]),
+            float(l2[52:63]), bstar]
+
+
+def time_of(o, us, kind):
+    """The instant epoch + us microseconds in one of the time representations the API accepts."""
+    t64 = o.tle.epoch + np.timedelta64(us, "us")
+    if kind == "dt64us":
+        return t64
+    naive = t64.astype("datetime64[us]").astype(object)
+    if kind == "datetime":
+        return naive
+    if kind == "aware_utc":
+        return naive.replace(tzinfo=dt.timezone.utc)
+    return naive.replace(tzinfo=dt.timezone.utc).astimezone(dt.timezone(dt.timedelta(minutes=330 if kind == "aware+0530" else -480)))
+
+
+TIME_KINDS = ["dt64us", "dt64us", "datetime", "aware_utc", "aware+0530", "aware-0800"]
 
 
 def array_probe(ctx, drv, l1, l2, start_min, o=None, n=180, step_min=1.5):
@@ -384,10 +415,12 @@ def replay(ctx, case):
         print("sequence probe:", r)
         return 1 if r == "violated" else 0
     o = orbital.Orbital("x", line1=inp["line1"], line2=inp["line2"])
-    tt = o.tle.epoch + np.timedelta64(int(round(inp["minutes"] * 60e6)), "us")
-    pos, vel = o.get_position(tt, normalize=False)
+    tt = time_of(o, int(round(inp["minutes"] * 60e6)), inp.get("time_kind", "dt64us"))
+    with warnings.catch_warnings():
+        warnings.simplefilter("ignore")
+        pos, vel = o.get_position(tt, normalize=False)
     drv = lib.Driver()
-    nums = sgp4io.tle_nums(o.tle)
+    nums = printed_elements(inp["line1"], inp["line2"])
     out = drv.run(["str3 " + " ".join(lib.f2h(x) for x in nums) + " " + lib.f2h(inp["minutes"])])[0]
     vals = [lib.h2f(x) for x in out.split(" | ")[1].split()[:7]]
     dp = float(np.linalg.norm(pos - np.array(vals[:3])))
